@@ -33,7 +33,7 @@ code only by exact reproduction of real streams (correspondence) on the generate
 |---|---|---|---|
 | 1 | "for any source, the highlighter's event stream" | every merge theorem below quantifies over ALL capture tables / layer tables of the model (`∀ caps`, `∀ defs top n`, `∀ cx`); the real parser + query engine that produce those tables are NOT modelled (C01–C16 territory) | model; real streams judged only (`judgeEvents` on every real stream: H, M, N, K, F, C, S cases) |
 | 2 | "source spans that are contiguous, increasing and cover the text from first to last byte exactly once" | `merge_wellformed_partial` (one layer), `merge_multi_wellformed` / `merge_multi_wellformed_partial` (several layers, injections creating layers), `merge_full_wellformed` (layers + locals + `injection_for_match`); `judgeEvents n evs = true` says exactly: spans contiguous from 0 to n, non-empty, increasing | model; premises `capsIn`/`defsIn` (captures inside the source) and `refsUp` (injections create later table entries) are checked on every real case, never failed |
-| 3 | "interleaved with start/end events that are properly nested" | syntactic nesting (never an End without an open Start): same theorems as 2.  Nesting WITH SPAN IDENTITY ("each End closes the span that ends there, which is the most recently opened one"): `merge_stack_spec_partial` (one layer), `merge_well_nested_partial` (several STATIC layers, premise `staticNice`: laminar + start ties oriented like the code emits them) with witnesses `well_nested_needs_crossNice`, `well_nested_needs_laminar`, `well_nested_equal_depth_tie` | model, partial (dynamic layers OPEN); real streams judged (`judgeStacks`) on the applicable ones |
+| 3 | "interleaved with start/end events that are properly nested" | syntactic nesting (never an End without an open Start): same theorems as 2.  Nesting WITH SPAN IDENTITY ("each End closes the span that ends there, which is the most recently opened one"): `merge_stack_spec_partial` (one layer); several layers INCLUDING layers created during the run: `merge_well_nested_dynamic_partial` (every prefix of the run), `merge_well_nested_run_partial` (the whole run of `mergeLayersR`: finishes, every End passes, stack empty at the end), premise `dynNice` (decidable); static corollary `merge_well_nested_partial`; witnesses `well_nested_needs_crossNice`, `well_nested_needs_laminar`, `well_nested_equal_depth_tie`, `well_nested_needs_injTieOk`, `well_nested_needs_closureNodup` | model, partial (premise holds on 165/303 real multi-layer cases of the quick tier); real streams judged (`judgeStacks`) on the applicable ones |
 | 4 | "and all closed at the end" | same theorems as 2 (`judgeEvents` requires depth 0 after the last event) | model |
 | 5 | "spans produced by an injected language stay inside the injection's content" | `intersect_ranges_spec`, `injected_content_inside` (every computed content range is non-empty, inside a parent range, inside a content node, clear of children unless include-children), `injection_language_captured`; that a layer's captures lie inside its included ranges is a fact about parsing with included ranges (C13) | ranges: proved for the port (compared with the real private function through `hooks/C17-reexport.diff` when applied); SPANS inside content: judged only (`judgeInjected`, every real stream with injections) |
 | 6 | "the HTML renderer's output, with tags removed and entities decoded, is the source text up to its documented normalisations" | `render_roundtrip_gen` (ANY event stream, any decoder: html text = concatenated decoded chunks without CR + final newline rule), `render_roundtrip_fixed`, `render_roundtrip_partial`, `render_roundtrip_whole_fixed`, `render_reproduces_source` (valid UTF-8: html text = source without CRs + newline rule), `render_total_of_wellFormed` | model of `HtmlRenderer`; `_partial` for the iterator of the tree before `fixes/C17-lossy-truncated.diff` (witnesses `render_roundtrip_witness_truncated`, `render_roundtrip_witness_final_invalid`); real HTML judged on every R/H/C case (`judgeHtml`) |
@@ -54,20 +54,22 @@ code only by exact reproduction of real streams (correspondence) on the generate
   harness' table construction / tree-sitter node ranges, checked per case, not proved.  Cancellation
   and the error path are outside the theorems (judged: C/E cases).
 * **3 span identity is `partial`**: `merge_stack_spec_partial` is one layer without locals and needs
-  `capsOk` (captures in nesting order: outer first at equal start).  `merge_well_nested_partial`
-  needs (a) STATIC layers (`noInj`: no layer created during the run) — injections created during the
-  run are OPEN; two obstacles found: distinctness of the live layers' ids needs "each layer id
-  referenced at most once" as an invariant over the not yet created layers, and the judge's tie
-  orientation is NOT sufficient there: a shallower span already opened at byte p when a deeper layer
-  with a longer capture at p is created breaks nesting in the model (the real code avoids this only
-  because injection patterns precede highlight patterns in the combined query); (b) `crossNice`
-  (different layers laminar; start ties only between different depths with the shallower span not
-  longer); (c) the repaired set-up (`initLayersR`).  Measured on the real multi-layer cases of the
-  quick tier (default seed): `crossNice` holds on 165/303; 109/303 have a start tie with the wrong
+  `capsOk` (captures in nesting order: outer first at equal start).  `merge_well_nested_dynamic_partial`
+  / `merge_well_nested_run_partial` cover layers created during the run but need `dynNice`:
+  (a) `defsNiceD`, `refsUp`, `closureNodup` (each layer id referenced at most once) — facts about the
+  harness' table construction, they hold on every real case; (b) `crossNice` (different layers
+  laminar; start ties only between different depths with the shallower span not longer);
+  (c) `injTieOkP` (no span of a shallower layer can already be open at the byte where a deeper layer
+  with a span capture there is created; on real tables it holds wherever `crossNice` holds, because
+  injection patterns precede highlight patterns in the combined query); (d) the repaired set-up
+  (`initLayersR`).  Measured on the real multi-layer cases of the quick tier (default seed): `dynNice`
+  holds on 165/303 = every case on which `crossNice` holds; 109/303 have a start tie with the wrong
   orientation (the real stream itself closes the wrong span there; `judgeStacks` skips them as
-  `skip-start-tie`), 29/303 are not laminar; only 17/303 are static and 8/303 satisfy the full
-  premise `staticNice`.  So the theorem covers 8/303 of the real multi-layer cases; the rest is
-  judged only.
+  `skip-start-tie`, no theorem can include them), 29/303 are not laminar; `injTieOkP` fails on 18, all
+  among those.  The model's run passes the stack discipline on 180/303 (the 165 and 15 more).  The
+  statement is about the model's `highlight_end_stack` ends (a span is identified by its end on the
+  global stack), not about the highlight ids; locals are not in this model (`Full.lean` has no
+  such theorem).
 * **5 "spans … inside the content" is judged only** for spans; the theorems are about the ranges
   handed to the parser.  `judgeInjected` checks Starts only and tolerates a zero-width span at the
   end of a range (missing-token nodes).
@@ -480,31 +482,43 @@ theorem initial_layers_unordered_witness :
 
 /-! ## Well-nestedness across layers -/
 
-/-- WELL-NESTEDNESS of the merged multi-layer stream.  Layers as static data (the root and the
-layers of its combined injections — no injection capture during the run), every layer's captures in
-start order, nested or disjoint, in nesting order; different layers, over the captures that can
-become spans (`spanCaps`: the node has a capture with a recognised highlight): laminar, and two
-non-empty captures starting at the same byte belong to layers of different depths with the SHALLOWER
-layer's capture not the longer one — the orientation in which the code emits them (deeper layer's
-Start first), the same test as the StackSpec judge's `startTiesOk` (`staticNice`, decidable; the
-driver evaluates it on every real case), distinct layer ids.
+/-- WELL-NESTEDNESS of the merged multi-layer stream, with layers created DURING the run.
+Premise `dynNice defs top` (decidable; the driver evaluates every part on every real case):
+* `defsNiceD`: every layer's captures in start order, nested or disjoint, in nesting order, and the
+  layers an injection capture creates only have captures at or after it;
+* `refsUp`: injection captures refer to later table entries;
+* `closureNodup`: each layer id is referenced at most once, from `top` or from an injection capture of
+  a reachable layer (`Nodup (top.flatMap tree)`);
+* `crossNice`: over the captures that can become spans (`spanCaps`), different table entries are
+  laminar, and two non-empty captures starting at the same byte belong to layers of different depths
+  with the SHALLOWER layer's capture not the longer one — the orientation in which the code emits
+  them (deeper layer's Start first), the same test as the StackSpec judge's `startTiesOk`;
+* `injTieOkP`: when an injection capture at byte `p` creates a layer that has a span capture at `p`,
+  no non-empty span capture starting at `p` of a layer shallower than the new one can already be
+  open — none BEFORE the injection capture in the creating layer's capture order, none in any other
+  table entry (in the real code injection patterns precede highlight patterns in the combined query).
 Run the repaired model and keep the GLOBAL stack of the ends of the open spans by stack discipline
 (`iterG`: push the capture's end at a `HighlightStart`, pop at a `HighlightEnd`, FAIL if the top is not
 the end being closed).  Then the run never fails: every `HighlightEnd` closes the most recently
 opened still-open span, and that span ends exactly there; moreover the global stack is always sorted
 by end (inner spans end first) and is a permutation of all layers' `highlight_end_stack`s.
-`_partial`: static layers (injections created during the run: OPEN, see the header); the three parts
-of `crossNice` cannot be dropped (witnesses below). -/
-theorem merge_well_nested_partial (defs : List LayerDef) (top : List Nat) (n k : Nat) (st' : MSt)
-    (hnice : staticNice defs = true) (hnd : top.Nodup)
+Invariant (`NInv`): the ids the state owns — live ids and the trees of the pending injection
+references — are distinct (an injection step moves ids from a tree to the live list, consuming
+captures only removes some; counting argument); every live layer is a suffix of its table entry and
+every open end belongs to a span capture in the consumed prefix; a span opened AT the current offset
+has no deeper live layer with a pending span capture there.
+`_partial`: each part of the premise excludes real cases (fractions in notes/C17.md); witnesses that
+`crossNice` (3 parts), `injTieOkP` and `closureNodup` cannot be dropped are below. -/
+theorem merge_well_nested_dynamic_partial (defs : List LayerDef) (top : List Nat) (n k : Nat) (st' : MSt)
+    (hnice : dynNice defs top = true)
     (h : iterM defs n k { layers := initLayersR defs top } = some st') :
     ∃ G, iterG defs n k { layers := initLayersR defs top } [] = some (st', G) ∧
       G.Pairwise (· ≤ ·) ∧ G.Perm (allEnds st'.layers) := by
-  simp only [staticNice, Bool.and_eq_true] at hnice
-  obtain ⟨⟨h1, h2⟩, h3⟩ := hnice
-  have hn := defsNice_of_static h1 h2
+  simp only [dynNice, Bool.and_eq_true] at hnice
+  obtain ⟨⟨⟨⟨h1, h2⟩, h3⟩, h4⟩, h5⟩ := hnice
+  have hn := defsNice_of_D h1
   obtain ⟨ho, _⟩ := init_oinv defs hn top
-  have hv := init_ninv defs top hnd
+  have hv := init_ninv defs h2 top (of_decide_eq_true h3)
   have hE : allEnds (initLayersR defs top) = [] := by
     have : ∀ y ∈ initLayersR defs top, y.ends = [] := by
       intro y hy
@@ -519,12 +533,111 @@ theorem merge_well_nested_partial (defs : List LayerDef) (top : List Nat) (n k :
           · simp at h; rw [h]; exact List.mem_cons_self
           · exact List.mem_cons_of_mem _ h
       obtain ⟨id, _, hm⟩ := List.mem_filterMap.mp hmem
-      unfold mkLayer at hm
-      cases hg : defs[id]? with
-      | none => rw [hg] at hm; simp at hm
-      | some d => rw [hg] at hm; simp only [Option.map_some, Option.some.injEq] at hm; rw [← hm]
+      obtain ⟨_, _, _, _, _, he⟩ := mkLayer_some hm
+      exact he
     exact allEnds_nil_of _ this
-  exact iterG_well_nested defs hn h2 h3 n k _ st' [] ho hv List.Pairwise.nil (by rw [hE]) h
+  exact iterG_well_nested defs hn h2 h4 h5 n k _ st' [] ho hv List.Pairwise.nil (by rw [hE]) h
+
+/-- The same for the WHOLE run of the model's top-level function: with the captures inside the source
+the run of `mergeLayersR` finishes (`refsUp` is part of `dynNice`), it consists of `k` iterations and
+the final step, every one of the `k` iterations passes the stack-discipline check, and the global
+stack is EMPTY at the end (every span is closed, each by its own End). -/
+theorem merge_well_nested_run_partial (defs : List LayerDef) (top : List Nat) (n : Nat)
+    (hnice : dynNice defs top = true) (hd : defsIn n defs = true) :
+    (mergeLayersR defs top n).2 = true ∧
+    ∃ k st' evs, iterM defs n k { layers := initLayersR defs top } = some st' ∧ stepM defs n st' = .done evs ∧
+      iterG defs n k { layers := initLayersR defs top } [] = some (st', []) := by
+  have hnice' := hnice
+  simp only [dynNice, Bool.and_eq_true] at hnice'
+  obtain ⟨⟨⟨⟨h1, h2⟩, _⟩, _⟩, _⟩ := hnice'
+  have hn := defsNice_of_D h1
+  have hdo : DefsOk n defs := by
+    intro d hdm c hc
+    have q1 := List.all_eq_true.mp hd d hdm
+    have q2 := List.all_eq_true.mp q1 c hc
+    simpa using q2
+  have hfin : (mergeLayersR defs top n).2 = true := by
+    unfold mergeLayersR
+    refine runM_fin hdo h2 _ _ ?_ (Nat.lt_succ_self _)
+    unfold initLayersR
+    cases hf : top.filterMap (mkLayer defs) with
+    | nil => exact ⟨Nat.zero_le _, fun l hl => by simp at hl, fun l r h => by simp at h⟩
+    | cons l0 r =>
+      simp only
+      refine sinv_sorted (Nat.zero_le _) ?_
+      intro y hy
+      have hmem : y ∈ top.filterMap (mkLayer defs) := by
+        rw [hf]
+        rcases mem_fold_insertLayer r [l0] y hy with h | h
+        · simp at h; rw [h]; exact List.mem_cons_self
+        · exact List.mem_cons_of_mem _ h
+      obtain ⟨id, _, hm⟩ := List.mem_filterMap.mp hmem
+      exact (mkLayer_ok hdo hm).2
+  refine ⟨hfin, ?_⟩
+  obtain ⟨k, st', evs, hk, hdone⟩ := runM_iter defs n _ _ hfin
+  obtain ⟨G, hG, _, hGp⟩ := merge_well_nested_dynamic_partial defs top n k st' hnice hk
+  obtain ⟨o1, o2⟩ := init_oinv defs hn top
+  obtain ⟨ho', _⟩ := iterM_oinv defs hn n k _ st' o1 o2 hk
+  have hnil := done_layers_nil ho' hdone
+  rw [hnil] at hGp
+  have : G = [] := List.Perm.eq_nil (by simpa [allEnds] using hGp)
+  rw [this] at hG
+  exact ⟨k, st', evs, hk, hdone, hG⟩
+
+/-- The static special case (the statement of the previous rounds): no injection capture, distinct
+top-level ids. -/
+theorem merge_well_nested_partial (defs : List LayerDef) (top : List Nat) (n k : Nat) (st' : MSt)
+    (hnice : staticNice defs = true) (hnd : top.Nodup)
+    (h : iterM defs n k { layers := initLayersR defs top } = some st') :
+    ∃ G, iterG defs n k { layers := initLayersR defs top } [] = some (st', G) ∧
+      G.Pairwise (· ≤ ·) ∧ G.Perm (allEnds st'.layers) :=
+  merge_well_nested_dynamic_partial defs top n k st' (dynNice_of_static hnice hnd) h
+
+/-- non-vacuity of the dynamic premise: the root's injection capture at byte 2 creates layer 1 during
+the run, whose first span starts at the same byte 2 as the root's NEXT span (the content node's own
+highlight, captured after the injection capture) and ends with it (the root's span of the same range
+is then skipped by `last_highlight_range`); layer 1 in turn creates layer 2.  The global stack after
+0..15 iterations; the 16th step is the final one. -/
+def nestedDyn : List LayerDef := [
+  ⟨0, [⟨0, 12, 1, .hl (some 1)⟩, ⟨2, 8, 2, .inj [1]⟩, ⟨2, 8, 2, .hl (some 2)⟩, ⟨9, 11, 3, .hl (some 3)⟩]⟩,
+  ⟨1, [⟨2, 8, 4, .hl (some 4)⟩, ⟨3, 6, 5, .inj [2]⟩, ⟨6, 7, 6, .hl (some 6)⟩]⟩,
+  ⟨2, [⟨3, 4, 7, .hl (some 7)⟩, ⟨4, 6, 8, .hl (some 8)⟩]⟩]
+
+example : dynNice nestedDyn [0] = true ∧ noInj nestedDyn = false ∧ defsIn 12 nestedDyn = true ∧
+    (List.range 20).map (fun k => (iterG nestedDyn 12 k { layers := initLayersR nestedDyn [0] } []).map (·.2)) =
+      [some [], some [12], some [12], some [8, 12], some [8, 12], some [8, 12], some [4, 8, 12], some [8, 12],
+       some [6, 8, 12], some [8, 12], some [7, 8, 12], some [8, 12], some [12], some [11, 12], some [12], some [],
+       none, none, none, none] := by decide
+
+/-- `injTieOkP` cannot be dropped: the root opens a span at byte 0 (capture BEFORE the injection capture
+in capture order), then its injection capture at byte 0 creates a deeper layer whose span at byte 0 is
+longer.  All other parts of the premise hold (the tie has the judge's orientation: the shallower span
+is the shorter one), but the deeper Start now comes AFTER the shallower one: stack `[10, 4]`, and the
+End at 4 finds 10 on top.  (In the real code an injection pattern always has a lower pattern index
+than a highlight pattern, so its capture comes first at equal start.) -/
+def lateLayer : List LayerDef := [
+  ⟨0, [⟨0, 4, 1, .hl (some 1)⟩, ⟨0, 2, 2, .inj [1]⟩]⟩,
+  ⟨1, [⟨0, 10, 3, .hl (some 3)⟩]⟩]
+
+theorem well_nested_needs_injTieOk :
+    injTieOkP lateLayer = false ∧
+    (defsNiceD lateLayer && refsUp lateLayer && closureNodup lateLayer [0] && crossNice lateLayer) = true ∧
+    (iterM lateLayer 10 4 { layers := initLayersR lateLayer [0] }).isSome = true ∧
+    (iterG lateLayer 10 3 { layers := initLayersR lateLayer [0] } []).map (·.2) = some [10, 4] ∧
+    iterG lateLayer 10 4 { layers := initLayersR lateLayer [0] } [] = none := by decide
+
+/-- "each layer id referenced at most once" cannot be dropped: two injection captures create the SAME
+table entry twice; the two live copies have identical spans (a start tie between layers of equal depth
+that `crossNice`, which compares DIFFERENT table entries, cannot see). -/
+def twiceRef : List LayerDef := [
+  ⟨0, [⟨0, 1, 1, .inj [1]⟩, ⟨0, 1, 2, .inj [1]⟩]⟩,
+  ⟨1, [⟨2, 6, 3, .hl (some 3)⟩, ⟨2, 4, 4, .hl (some 4)⟩]⟩]
+
+theorem well_nested_needs_closureNodup :
+    closureNodup twiceRef [0] = false ∧
+    (defsNiceD twiceRef && refsUp twiceRef && crossNice twiceRef && injTieOkP twiceRef) = true ∧
+    (iterG twiceRef 8 20 { layers := initLayersR twiceRef [0] } []).isNone = true ∧
+    (mergeLayersR twiceRef [0] 8).2 = true := by decide
 
 /-- non-vacuity: a root layer and one combined-injection layer inside its first span; the global
 stack after 0..8 iterations -/
